@@ -92,6 +92,13 @@ def check_request(ctx, req, stack, body_text, config, case, kind):
             if key == "superseded-value-sent" and len(variants) > 1:
                 key += ":case-variants"
             ctx.violate(key, case, {"name": name, "sent": vals[0], "expected": value, "stack": stack})
+    # nothing else of the harness's header names may be on the wire (a header of a block that was left)
+    known = set(n.lower() for n in BASE_NAMES) | {"x-flag"}
+    stray = sorted(k for k in got if k in known and k not in merged
+                   and k not in ("content-length", "content-type", "user-agent")
+                   and not (k == "authorization" and case.get("credentials")))
+    if stray:
+        ctx.violate("header-not-in-force-was-sent", case, {"stray": {k: got[k] for k in stray}, "stack": stack})
     cl = got.get("content-length", [])
     body_len = len(req.body)
     if len(cl) != 1 or cl[0] != str(len(body_text.encode("utf-8"))) or body_len != len(body_text.encode("utf-8")):
@@ -244,14 +251,17 @@ def run(ctx):
                         config = jsonrpclib.config.Config()
                         history = History()
                         ctor = gen_dict(rng)
-                        proxy = jsonrpclib.ServerProxy(peer.url, headers=ctor, history=history, config=config)
+                        # half of the TCP proxies carry credentials in the URL (an Authorization header of their own)
+                        cred = fam == "tcp" and rng.random() < 0.5
+                        url = peer.url.replace("http://", "http://user:secret@") if cred else peer.url
+                        proxy = jsonrpclib.ServerProxy(url, headers=ctor, history=history, config=config)
                         dicts = [gen_dict(rng) for _ in range(k)]
                         # equal dictionaries pushed again at non-adjacent positions (A-B-A stacks)
                         for j in range(k):
                             if rng.random() < 0.35:
                                 dicts[j] = dict(rng.choice([ctor] + dicts[:j]))
                         case = {"family": fam, "ctor": ctor, "blocks": dicts, "exits": list(pattern),
-                                "scenario": "blocks"}
+                                "scenario": "blocks", "credentials": cred}
                         ctx.case(("blocks", fam, gen.trepr([ctor] + dicts), pattern))
                         ctx.cell(fam, "blocks-%d" % k, "".join("E" if p else "n" for p in pattern))
                         run_blocks(ctx, rng, proxy, peer, history, config, ctor, dicts, pattern, case)
@@ -263,7 +273,9 @@ def run(ctx):
                 config = jsonrpclib.config.Config()
                 history = History()
                 ctor = gen_dict(rng) if rng.random() < 0.5 else {}
-                proxy = jsonrpclib.ServerProxy(peer.url, headers=ctor, history=history, config=config)
+                cred = fam == "tcp" and rng.random() < 0.5
+                url = peer.url.replace("http://", "http://user:secret@") if cred else peer.url
+                proxy = jsonrpclib.ServerProxy(url, headers=ctor, history=history, config=config)
                 fam_vals = rng.choice(families)
                 name = rng.choice(["X-Flag", "X-Test", "Authorization"])
                 seq = []
@@ -272,7 +284,7 @@ def run(ctx):
                     if rng.random() < 0.3:
                         d["X-Other"] = rng.choice(VALUES)
                     seq.append(d)
-                case = {"family": fam, "ctor": ctor, "sibling_blocks": seq, "scenario": "siblings"}
+                case = {"family": fam, "ctor": ctor, "sibling_blocks": seq, "scenario": "siblings", "credentials": cred}
                 ctx.case(("siblings", fam, gen.trepr([ctor] + seq)))
                 ctx.cell(fam, "sibling-blocks")
                 for d in seq:
